@@ -15,6 +15,7 @@ VARIANTS = [
     {"location": "pattern_parent", "spelling": "dot", "listing": 42},
     {"location": "x_parent", "spelling": "dotrel", "listing": 7},
     {"location": "link_parent", "spelling": "abs", "listing": 3},
+    {"location": "link_root", "spelling": "abs", "listing": 9},
 ]
 
 
